@@ -121,9 +121,19 @@ def run(t, budget=1.0):
                 pc.fail(sig, entry, {"cmd": line, "config": cfg, "expected_buffer": exp_buf, "expected_rets": sc.rets, "actual": resp},
                         "[%s] message %s target path %s numInGroup=%s: %s" % (cfg, L.name, list(path), nval, what))
 
+    pc.claim_build_failures(["fill_group_header", "fill_message_header"], "filler-call-does-not-compile")
     pc.run_hypothesis(body, 5000 if t == "quick" else 60000)
     return pc.finish()
 
 
 def replay(path):
+    case = json.load(open(path))["case"]
+    if case.get("build_failure"):
+        entry = poolcheck.replay_entry(case, [])
+        if entry is None:
+            print("replay: STILL FAILS (driver does not build)")
+            return 1
+        shutil.rmtree(entry.dir, ignore_errors=True)
+        print("replay: holds now")
+        return 0
     return c01.replay(path)
